@@ -107,8 +107,46 @@ fn all_values_binade(f: Fmt, be: u64, chunks: u64, stride: u64, offset: u64) -> 
     jobs
 }
 
+/// The three renderings of one float in scientific and positional notation.
+fn emit_rt(emit: &mut fam::Emit, f: Fmt, a: u64) {
+    let mask = if f == F32 { M32 } else { M64 };
+    let (m, e) = f.decode(a);
+    let (ad, ae) = mlxcore::exact::expand(m, e);
+    fam::emit_placements(emit, &ad, ae, if ad.len() > 1 { fam::PL_SCI } else { fam::PL_INT }, "RT-exact", mask, Some(a));
+    let (sd, se) = fam::render_sci(f, a, None);
+    fam::emit_placements(emit, &sd, se, (if sd.len() > 1 { fam::PL_SCI } else { fam::PL_INT }) | fam::PL_POS, "RT-shortest", mask, Some(a));
+    let (sd, se) = fam::render_sci(f, a, Some(if f == F32 { 8 } else { 16 }));
+    fam::emit_placements(emit, &sd, se, (if sd.len() > 1 { fam::PL_SCI } else { fam::PL_INT }) | fam::PL_POS, "RT-17", mask, Some(a));
+}
+
+/// Floats that have a short decimal (15..17 / 7..9 digits) extremely close to one of their rounding boundaries:
+/// the value each short HARD case rounds to (by the exact oracle) and its two neighbours. Their shortest and
+/// fixed-precision renderings are the round-trip inputs on which the moderate stage has the least margin.
+fn rt_hard_family(path: &str) -> Vec<Job> {
+    let all: Vec<(u8, i32, u64)> = crate::read_hard(path).into_iter().filter(|&(m, _q, w)| if m == M64 { w < 100_000_000_000_000_000 } else { w < 1_000_000_000 }).collect();
+    let mut jobs: Vec<Job> = Vec::new();
+    for chunk in all.chunks(128) {
+        let chunk = chunk.to_vec();
+        jobs.push(Box::new(move |emit: &mut fam::Emit| {
+            for &(m, q, w) in &chunk {
+                let f = if m == M64 { F64 } else { F32 };
+                let x = expected(&DecN::from_u64(w, q as i64), f);
+                for a in [x.saturating_sub(1), x, x + 1] {
+                    if a > 0 && a < f.inf_bits() {
+                        emit_rt(emit, f, a);
+                    }
+                }
+            }
+        }));
+    }
+    jobs
+}
+
 pub fn c03(a: &Args) -> (Stats, String) {
     let mut fams: Fams = Vec::new();
+    if let Some(h) = &a.hard {
+        fams.push(("RT-HARD: floats with a 15..17 (7..9) digit decimal next to a rounding boundary, and their neighbours, x 3 renderings", rt_hard_family(h)));
+    }
     let extra = if a.thorough { 4096 } else { 64 };
     fams.push(("RT f64: every binade x patterns x {exact, shortest, 17 digits} in scientific, integer and positional notation", fam::boundary_light(F64, extra, a.seed, 1, fam::PL_SCI | fam::PL_INT | fam::PL_POS)));
     fams.push(("RT f32: every binade x patterns x {exact, shortest, 9 digits} in scientific, integer and positional notation", fam::boundary_light(F32, extra, a.seed, 1, fam::PL_SCI | fam::PL_INT | fam::PL_POS)));
@@ -539,6 +577,27 @@ pub fn c15(a: &Args) -> (Stats, String) {
                         st.bump("calls_that_allocated");
                         if r.is_ok() && !cfg!(feature = "alloc") {
                             st.violation(mk_viol(c, F::FMT, "heap-allocation", format!("{} allocation(s) during the call", delta), "0".into()));
+                        }
+                    }
+                    // the same input through iterators that are not slices (inexact size hint, chained buffers):
+                    // "no allocation for any input" must not depend on the iterator type
+                    if slow && c.int.len() + c.frac.len() <= 2000 {
+                        st.calls += 1;
+                        let ih = c.int.len() / 2;
+                        let before = crate::alloc_count::allocs();
+                        let r2 = std::panic::catch_unwind(std::panic::AssertUnwindSafe(|| {
+                            minimal_lexical::parse_float::<F, _, _>(
+                                c.int[..ih].iter().chain(c.int[ih..].iter()).filter(|b| **b != b'_'),
+                                c.frac.iter().filter(|b| **b != b'_'),
+                                c.exp,
+                            )
+                        }));
+                        let delta2 = crate::alloc_count::allocs() - before;
+                        if delta2 != 0 {
+                            st.bump("calls_that_allocated");
+                            if r2.is_ok() && !cfg!(feature = "alloc") {
+                                st.violation(mk_viol(c, F::FMT, "heap-allocation", format!("{} allocation(s) during the call through Chain+Filter iterators", delta2), "0".into()));
+                            }
                         }
                     }
                 }
